@@ -167,6 +167,8 @@ pub struct Lab {
     pub activity: u64,
     /// Optional sink for log lines emitted by callbacks (set by the tracing harness).
     pub log_hook: Option<fn(&str)>,
+    /// Polls of the lab parser stream after it had returned `None`.
+    pub parser_polled_after_end: u64,
 }
 
 thread_local! {
@@ -323,6 +325,13 @@ impl W {
     }
 }
 
+/// Number of log events a callback emits in a phase ("pre" = before its gates, "post" = after its
+/// last await point): 0..=2 as a rule, a burst of 20..=64 in one of 16 (callback, phase) pairs.
+pub fn log_count(key: &str, inv: usize, phase: &str) -> u64 {
+    let h = crate::tape::hash_str(&format!("{key}#{inv}{phase}"));
+    if h % 16 == 3 { 20 + (h / 16) % 45 } else { h % 3 }
+}
+
 pub async fn callback(key: String, world: Option<&mut W>, reason: Option<Reason>, args: Option<String>) {
     let (wid, cnt) = world.as_ref().map_or((None, 0), |w| (Some(w.id), w.counter));
     let (inv, entry) = with_lab(|l| {
@@ -351,7 +360,7 @@ pub async fn callback(key: String, world: Option<&mut W>, reason: Option<Reason>
         w.counter += 1;
     }
     let hook = with_lab(|l| l.log_hook);
-    let nlogs = |phase: &str| crate::tape::hash_str(&format!("{key}#{inv}{phase}")) % 3;
+    let nlogs = |phase: &str| log_count(&key, inv, phase);
     if let Some(h) = hook {
         for j in 0..nlogs("pre") {
             h(&format!("LOGTOK|{key}|{inv}|{}|pre{j}|END", wid.map_or("-".to_string(), |w| w.to_string())));
